@@ -12,6 +12,9 @@ Proof.
   change (sumqr (a :: t)) with (Qred (a + sumqr t)%Q). rewrite Qred_correct, IH. reflexivity.
 Qed.
 
+Lemma sumq_cons (a : Q) (t : list Q) : sumq (a :: t) = (a + sumq t)%Q.
+Proof. reflexivity. Qed.
+
 Lemma sumq_app (a b : list Q) : (sumq (a ++ b) == sumq a + sumq b)%Q.
 Proof. induction a as [|x t IH]; simpl; [lra|]. rewrite IH. lra. Qed.
 
@@ -30,6 +33,9 @@ Proof.
 Qed.
 
 Lemma nth_map_seq0 {B} (f : nat -> B) (n i : nat) (d : B) : i < n -> nth i (map f (seq 0 n)) d = f i.
+Proof. apply nth_map_seq. Qed.
+
+Lemma nthq_map_seq0 (f : nat -> Q) (n i : nat) : i < n -> nthq (map f (seq 0 n)) i = f i.
 Proof. apply nth_map_seq. Qed.
 
 Lemma In_le_maxz (l : list Z) x : In x l -> (x <= maxz l)%Z.
@@ -71,11 +77,12 @@ Proof.
   intros Hz. induction K as [|K IH].
   - simpl. destruct (z <? 0)%Z eqn:E; [apply Z.ltb_lt in E; lia|reflexivity].
   - rewrite seq_S, map_app, sumn_app, IH. cbn [map sumn fold_right Nat.add plus].
-    destruct (z <? Z.of_nat K)%Z eqn:E1; destruct (z =? Z.of_nat K)%Z eqn:E2;
-      destruct (z <? Z.of_nat (S K))%Z eqn:E3;
-      try apply Z.ltb_lt in E1; try apply Z.ltb_ge in E1; try apply Z.eqb_eq in E2; try apply Z.eqb_neq in E2;
-      try apply Z.ltb_lt in E3; try apply Z.ltb_ge in E3; lia.
+    destruct (Z.ltb_spec z (Z.of_nat K)); destruct (Z.eqb_spec z (Z.of_nat K));
+      destruct (Z.ltb_spec z (Z.of_nat (S K))); lia.
 Qed.
+
+Lemma sumn_map_zero {A} (l : list A) : sumn (map (fun _ => 0) l) = 0.
+Proof. induction l; simpl; auto. Qed.
 
 (** counting by classes of a key partitions the count *)
 Lemma count_partition {A} (key : A -> Z) (g : A -> bool) (l : list A) (K : nat) :
@@ -83,10 +90,10 @@ Lemma count_partition {A} (key : A -> Z) (g : A -> bool) (l : list A) (K : nat) 
   sumn (map (fun i => count_if (fun x => (key x =? Z.of_nat i)%Z && g x) l) (seq 0 K)) = count_if g l.
 Proof.
   induction l as [|a t IH]; intros H.
-  - unfold count_if. simpl. induction (seq 0 K); simpl; auto.
+  - unfold count_if. simpl. apply sumn_map_zero.
   - rewrite (sumn_map_ext _ (fun i => (if (key a =? Z.of_nat i)%Z && g a then 1 else 0) +
                                        count_if (fun x => (key x =? Z.of_nat i)%Z && g x) t)).
-    2:{ intros i _. apply count_if_cons. }
+    2:{ intros i _. apply (count_if_cons (fun x => (key x =? Z.of_nat i)%Z && g x)). }
     rewrite sumn_map_add, IH by (intros x Hx; apply H; right; exact Hx).
     rewrite count_if_cons. f_equal.
     destruct (H a (or_introl eq_refl)) as [H0 HK].
@@ -97,7 +104,7 @@ Proof.
       apply Z.ltb_ge in E. lia.
     + rewrite (sumn_map_ext _ (fun _ => 0)).
       2:{ intros i _. rewrite andb_false_r. reflexivity. }
-      induction (seq 0 K); simpl; auto.
+      apply sumn_map_zero.
 Qed.
 
 (** * Metrics = confusion-matrix / textbook definitions *)
@@ -223,24 +230,25 @@ Theorem prf_def lt lp f1 pr rc :
     (nthq rc k == spec_recall m (Z.of_nat k))%Q /\
     (nthq f1 k == spec_f1 m (Z.of_nat k))%Q.
 Proof.
-  unfold f1_scores. destruct (confusion lt lp) as [C|] eqn:HC; [|discriminate].
-  simpl. intros H. inversion H; subst f1 pr rc. clear H. intros m K.
-  destruct (confusion_entries _ _ _ HC) as [Hl [_ He]]. fold K in Hl, He.
-  rewrite !map2_length, !map_length, !seq_length, Hl, !Nat.min_id.
+  intros H m K. unfold f1_scores in H. destruct (confusion lt lp) as [C|] eqn:HC; [|discriminate].
+  cbn [option_map] in H. unfold prf_of_confusion in H. inversion H; subst f1 pr rc. clear H.
+  destruct (confusion_entries _ _ _ HC) as [Hl [_ He]]. fold K in Hl, He. fold m in He.
+  rewrite Hl.
+  rewrite !map2_length, !map_length, !seq_length, !Nat.min_id.
   split; [reflexivity|]. split; [reflexivity|]. split; [reflexivity|].
   intros k Hk.
   set (ratio := fun a b : nat => if b =? 0 then 0%Q else (qnat a / qnat b)%Q).
-  set (correct := map (fun i => centry C i i) (seq 0 (length C))).
-  set (ctrue := map (fun i => sumn (map (fun j => centry C i j) (seq 0 (length C)))) (seq 0 (length C))).
-  set (cpred := map (fun j => sumn (map (fun i => centry C i j) (seq 0 (length C)))) (seq 0 (length C))).
+  set (correct := map (fun i => centry C i i) (seq 0 K)).
+  set (ctrue := map (fun i => sumn (map (fun j => centry C i j) (seq 0 K))) (seq 0 K)).
+  set (cpred := map (fun j => sumn (map (fun i => centry C i j) (seq 0 K))) (seq 0 K)).
   assert (Hc : nth k correct 0 = tp m (Z.of_nat k)).
-  { unfold correct. rewrite Hl, nth_map_seq0 by exact Hk. rewrite He by exact Hk. reflexivity. }
+  { unfold correct. rewrite nth_map_seq0 by exact Hk. rewrite He by exact Hk. reflexivity. }
   assert (Ht : nth k ctrue 0 = tp m (Z.of_nat k) + fn m (Z.of_nat k)).
-  { unfold ctrue. rewrite Hl at 2. rewrite nth_map_seq0 by exact Hk.
-    rewrite (confusion_row_sum lt lp C k HC Hk). apply tp_fn_true. }
+  { unfold ctrue. rewrite nth_map_seq0 by exact Hk.
+    pose proof (confusion_row_sum lt lp C k HC Hk) as R. rewrite Hl in R. rewrite R. apply tp_fn_true. }
   assert (Hp : nth k cpred 0 = tp m (Z.of_nat k) + fp m (Z.of_nat k)).
-  { unfold cpred. rewrite Hl at 2. rewrite nth_map_seq0 by exact Hk.
-    rewrite (confusion_col_sum lt lp C k HC Hk). apply tp_fp_pred. }
+  { unfold cpred. rewrite nth_map_seq0 by exact Hk.
+    pose proof (confusion_col_sum lt lp C k HC Hk) as R. rewrite Hl in R. rewrite R. apply tp_fp_pred. }
   assert (Hlen : length correct = K /\ length ctrue = K /\ length cpred = K).
   { unfold correct, ctrue, cpred. rewrite !map_length, !seq_length. auto. }
   destruct Hlen as [L1 [L2 L3]].
@@ -300,4 +308,944 @@ Proof.
       apply G; [exact L|]. intros k Hk'. apply (Hk k Hk'). }
     rewrite Hs. reflexivity.
   - intros H. unfold average_f1. rewrite H. split; reflexivity.
+Qed.
+
+Lemma uniq_labels_In (labels : list Z) z : In z (uniq_labels labels) <-> In z labels /\ (0 <= z)%Z.
+Proof.
+  unfold uniq_labels. fold (uniq_of labels []). rewrite in_map_iff. split.
+  - intros [x [<- Hx]]. apply uniq_of_In in Hx. destruct Hx as [[]|Hx]. split; [exact Hx|lia].
+  - intros [Hin Hz]. exists (Z.to_nat z). split; [apply Z2Nat.id; exact Hz|].
+    apply uniq_of_In. right. rewrite Z2Nat.id by exact Hz. exact Hin.
+Qed.
+
+Lemma uniq_labels_NoDup (labels : list Z) : NoDup (uniq_labels labels).
+Proof.
+  unfold uniq_labels. fold (uniq_of labels []).
+  apply FinFun.Injective_map_NoDup; [intros a b H; lia|].
+  apply ssorted_nodup. apply uniq_of_sorted. constructor.
+Qed.
+
+Lemma sumq_map_ext_eq {A} (F G : A -> Q) (l : list A) :
+  (forall x, In x l -> (F x == G x)%Q) -> (sumq (map F l) == sumq (map G l))%Q.
+Proof.
+  induction l as [|a t IH]; simpl; intros H; [reflexivity|].
+  rewrite (H a) by auto. rewrite IH; [reflexivity|]. intros x Hx. apply H. auto.
+Qed.
+
+Lemma map2_map_r {A B C} (f : A -> B -> C) (g : A -> B) (l : list A) :
+  map2 f l (map g l) = map (fun x => f x (g x)) l.
+Proof. induction l as [|a t IH]; simpl; [reflexivity|]. rewrite IH. reflexivity. Qed.
+
+(** 'weighted' average: F1 of each label occurring in labels_true, weighted by its number of occurrences there *)
+Theorem weighted_def lt lp f1 pr rc :
+  f1_scores lt lp = Some (f1, pr, rc) ->
+  let cnt := fun l => count_if (fun t => (t =? l)%Z) lt in
+  exists x, average_f1 lt lp Weighted = Some x /\
+    (x == sumq (map (fun l => spec_f1 (masked lt lp) l * qnat (cnt l)) (uniq_labels lt))
+          / qnat (sumn (map cnt (uniq_labels lt))))%Q.
+Proof.
+  intros H cnt. unfold average_f1. rewrite H. cbn [option_map fst]. eexists. split; [reflexivity|].
+  fold cnt. rewrite map2_map_r.
+  destruct (prf_def _ _ _ _ _ H) as [_ [_ [_ Hk]]].
+  rewrite (sumq_map_ext_eq _ (fun l => spec_f1 (masked lt lp) l * qnat (cnt l))%Q); [reflexivity|].
+  intros l Hl. apply uniq_labels_In in Hl. destruct Hl as [Hin Hz].
+  assert (Hlt : Z.to_nat l < n_labels lt lp).
+  { unfold n_labels. pose proof (In_le_maxz _ _ Hin). pose proof (maxz_ge_m1 lp). lia. }
+  destruct (Hk _ Hlt) as [_ [_ Hf]]. rewrite Hf, Z2Nat.id by exact Hz. reflexivity.
+Qed.
+
+(** * Probability rows *)
+
+Definition nonneg_row (r : list Q) : Prop := Forall (fun x => 0 <= x)%Q r.
+(** a probability row: non-negative entries summing to 1, or to 0 when no label reaches the node *)
+Definition prob_row (r : list Q) : Prop := nonneg_row r /\ ((sumq r == 1)%Q \/ (sumq r == 0)%Q).
+
+Lemma sumq_abs_nonneg (r : list Q) : nonneg_row r -> (sumq (map Qabs r) == sumq r)%Q.
+Proof.
+  induction r as [|a t IH]; intros H; simpl; [reflexivity|]. inversion H; subst.
+  rewrite (Qabs_pos a) by assumption. rewrite IH by assumption. reflexivity.
+Qed.
+
+Lemma sumq_map_div (r : list Q) (s : Q) : ~ (s == 0)%Q ->
+  (sumq (map (fun x => Qred (x / s)) r) == sumq r / s)%Q.
+Proof.
+  intros Hs. induction r as [|a t IH].
+  - simpl. unfold Qdiv. lra.
+  - rewrite map_cons, !sumq_cons, Qred_correct, IH. field. exact Hs.
+Qed.
+
+Lemma normalize_row_length r : length (normalize_row r) = length r.
+Proof. unfold normalize_row. destruct (Qeq_bool _ _); [reflexivity|apply map_length]. Qed.
+
+Theorem normalize_row_prob (r : list Q) : nonneg_row r -> prob_row (normalize_row r).
+Proof.
+  intros H. unfold normalize_row. pose proof (sumq_abs_nonneg r H) as Habs.
+  pose proof (sumq_nonneg r H) as Hs.
+  destruct (Qeq_bool (sumq (map Qabs r)) 0) eqn:E.
+  - apply Qeq_bool_iff in E. split; [exact H|]. right. rewrite <- Habs. exact E.
+  - assert (Hne : ~ (sumq (map Qabs r) == 0)%Q).
+    { intros Heq. apply Qeq_bool_iff in Heq. congruence. }
+    split.
+    + unfold nonneg_row in *. rewrite Forall_forall in *. intros x Hx. apply in_map_iff in Hx.
+      destruct Hx as [y [<- Hy]]. rewrite Qred_correct. specialize (H y Hy).
+      apply Qle_shift_div_l; lra.
+    + left. rewrite sumq_map_div by exact Hne. rewrite Habs in *. field. exact Hne.
+Qed.
+
+(** entries of a normalised row, up to == *)
+Lemma normalize_row_nth (r : list Q) c :
+  nonneg_row r ->
+  (nthq (normalize_row r) c == if Qeq_bool (sumq r) 0 then nthq r c else nthq r c / sumq r)%Q.
+Proof.
+  intros H. unfold normalize_row. pose proof (sumq_abs_nonneg r H) as Habs.
+  assert (Eb : Qeq_bool (sumq (map Qabs r)) 0 = Qeq_bool (sumq r) 0).
+  { destruct (Qeq_bool (sumq r) 0) eqn:E.
+    - apply Qeq_bool_iff. apply Qeq_bool_iff in E. rewrite Habs. exact E.
+    - destruct (Qeq_bool (sumq (map Qabs r)) 0) eqn:E2; [|reflexivity].
+      apply Qeq_bool_iff in E2. rewrite Habs in E2. apply Qeq_bool_iff in E2. congruence. }
+  rewrite Eb. destruct (Qeq_bool (sumq r) 0) eqn:E; [reflexivity|].
+  unfold nthq. destruct (Nat.lt_ge_cases c (length r)) as [Hc|Hc].
+  - rewrite (nth_map_lt (fun x => Qred (x / sumq (map Qabs r))%Q) r c 0%Q 0%Q Hc).
+    rewrite Qred_correct, Habs. reflexivity.
+  - rewrite !nth_overflow by (try rewrite map_length; exact Hc). unfold Qdiv. lra.
+Qed.
+
+(** Propagation: probs_ *)
+Theorem prop_probs_rows (adj : adjrows) (labels : list Z) :
+  (forall r, In r adj -> Forall (fun p : nat * Q => 0 <= snd p)%Q r) ->
+  Forall prob_row (prop_probs adj labels) /\
+  Forall (fun r => length r = n_cols labels) (prop_probs adj labels) /\
+  length (prop_probs adj labels) = length adj.
+Proof.
+  intros H. unfold prop_probs. split; [|split].
+  - rewrite Forall_forall. intros x Hx. apply in_map_iff in Hx. destruct Hx as [r [<- Hr]].
+    apply normalize_row_prob. unfold nonneg_row. rewrite Forall_forall. intros y Hy.
+    apply in_map_iff in Hy. destruct Hy as [c [<- _]]. rewrite sumqr_sumq. apply sumq_nonneg.
+    rewrite Forall_forall. intros z Hz. apply in_map_iff in Hz. destruct Hz as [p [<- Hp]].
+    specialize (H r Hr). rewrite Forall_forall in H. specialize (H p Hp).
+    destruct (nthz labels (fst p) =? Z.of_nat c)%Z; [exact H|lra].
+  - rewrite Forall_forall. intros x Hx. apply in_map_iff in Hx. destruct Hx as [r [<- Hr]].
+    rewrite normalize_row_length, map_length, seq_length. reflexivity.
+  - apply map_length.
+Qed.
+
+(** RankClassifier *)
+Lemma map_snd_combine {A B} (l1 : list A) (l2 : list B) :
+  length l1 = length l2 -> map snd (combine l1 l2) = l2.
+Proof.
+  revert l2; induction l1 as [|a t IH]; intros [|b t2] H; simpl in *; try discriminate; auto.
+  f_equal. apply IH. lia.
+Qed.
+Lemma map_fst_combine {A B} (l1 : list A) (l2 : list B) :
+  length l1 = length l2 -> map fst (combine l1 l2) = l1.
+Proof.
+  revert l2; induction l1 as [|a t IH]; intros [|b t2] H; simpl in *; try discriminate; auto.
+  f_equal. apply IH. lia.
+Qed.
+
+Lemma argmax_from_lt r : forall pos bp best, bp < pos -> argmax_from r pos bp best < pos + length r.
+Proof.
+  induction r as [|x t IH]; intros pos bp best H; simpl; [lia|].
+  destruct (Qle_bool x best).
+  - specialize (IH (S pos) bp best ltac:(lia)). lia.
+  - specialize (IH (S pos) pos x ltac:(lia)). lia.
+Qed.
+
+Lemma argmax_first_lt r : r <> [] -> argmax_first r < length r.
+Proof.
+  destruct r as [|x t]; [congruence|]. intros _. simpl.
+  pose proof (argmax_from_lt t 1 0 x ltac:(lia)). lia.
+Qed.
+
+(** contract of the ranking oracle: one non-negative score per node and class *)
+Definition scores_ok (seeds : list Z) (scores : mat) : Prop :=
+  Forall (fun r => length r = length (uniq_labels seeds) /\ nonneg_row r) scores.
+
+Theorem rank_classify_ok (seeds : list Z) (scores : mat) :
+  scores_ok seeds scores -> uniq_labels seeds <> [] ->
+  let '(labels, probs) := rank_classify seeds scores in
+  length labels = length scores /\ length probs = length scores /\
+  (forall l, In l labels -> In l seeds /\ (0 <= l)%Z) /\
+  Forall (fun r : list (Z * Q) => map fst r = uniq_labels seeds /\ prob_row (map snd r)) probs.
+Proof.
+  intros Hs Hne. unfold rank_classify. rewrite !map_length.
+  split; [reflexivity|]. split; [reflexivity|]. unfold scores_ok in Hs. rewrite Forall_forall in Hs. split.
+  - intros l Hl. apply in_map_iff in Hl. destruct Hl as [r' [<- Hr']].
+    apply in_map_iff in Hr'. destruct Hr' as [r [<- Hr]]. destruct (Hs r Hr) as [Hlen _].
+    apply uniq_labels_In. apply nth_In. rewrite <- Hlen, <- (normalize_row_length r).
+    apply argmax_first_lt. intros E. apply Hne. apply length_zero_iff_nil.
+    rewrite <- Hlen, <- (normalize_row_length r), E. reflexivity.
+  - rewrite Forall_forall. intros x Hx. apply in_map_iff in Hx. destruct Hx as [r' [<- Hr']].
+    apply in_map_iff in Hr'. destruct Hr' as [r [<- Hr]]. destruct (Hs r Hr) as [Hlen Hnn].
+    assert (L : length (uniq_labels seeds) = length (normalize_row r)) by (rewrite normalize_row_length; auto).
+    rewrite map_fst_combine, map_snd_combine by exact L. split; [reflexivity|].
+    apply normalize_row_prob. exact Hnn.
+Qed.
+
+(** * Propagation *)
+
+Lemma list_eqb_Z_eq a : forall b, list_eqb_Z a b = true <-> a = b.
+Proof.
+  induction a as [|x t IH]; intros [|y tb]; simpl; split; intros H; try discriminate; auto.
+  - apply andb_true_iff in H. destruct H as [H1 H2]. apply Z.eqb_eq in H1. apply IH in H2. subst. reflexivity.
+  - inversion H; subst. rewrite Z.eqb_refl. apply IH. reflexivity.
+Qed.
+
+Lemma scatter_length idx : forall base vals, length (scatter base idx vals) = length base.
+Proof.
+  induction idx as [|i t IH]; intros base [|v tv]; simpl; auto. rewrite IH. apply upd_length.
+Qed.
+
+Lemma scatter_In idx : forall base vals x, In x (scatter base idx vals) -> In x base \/ In x vals.
+Proof.
+  induction idx as [|i t IH]; intros base [|v tv] x H; simpl in *; auto.
+  apply IH in H. destruct H as [H|H]; [|auto]. apply In_upd in H. destruct H as [->|H]; auto.
+Qed.
+
+Lemma scatter_other idx : forall base vals i, ~ In i idx -> nthz (scatter base idx vals) i = nthz base i.
+Proof.
+  induction idx as [|a t IH]; intros base [|v tv] i H; simpl in *; auto.
+  rewrite IH by tauto. unfold nthz. apply nth_upd_other. tauto.
+Qed.
+
+Lemma scatter_map (f : nat -> Z) idx : forall base i,
+  NoDup idx -> (forall j, In j idx -> j < length base) -> In i idx ->
+  nthz (scatter base idx (map f idx)) i = f i.
+Proof.
+  induction idx as [|a t IH]; intros base i Hnd Hlt Hin; simpl in *; [contradiction|].
+  inversion Hnd as [|? ? Hnotin Hnd']; subst.
+  destruct (Nat.eq_dec a i) as [->|Ne].
+  - rewrite scatter_other by exact Hnotin. unfold nthz. apply nth_upd_same. apply Hlt. auto.
+  - destruct Hin as [E|Hin]; [contradiction|]. apply IH; auto.
+    intros j Hj. rewrite upd_length. apply Hlt. auto.
+Qed.
+
+Lemma NoDup_filter {A} (f : A -> bool) l : NoDup l -> NoDup (filter f l).
+Proof.
+  induction 1 as [|a t Hnotin Hnd IH]; simpl; [constructor|].
+  destruct (f a); [constructor|]; auto. rewrite filter_In. tauto.
+Qed.
+
+Lemma instantiate_vars_spec ct seeds :
+  let n := length seeds in
+  let '(index_seed, index_remain, labels_seed) := instantiate_vars ct seeds in
+  labels_seed = map (nthz seeds) index_seed /\ NoDup index_seed /\ NoDup index_remain /\
+  (forall i, In i index_seed -> i < n) /\ (forall i, In i index_remain -> i < n) /\
+  (clustering_mode ct seeds = false ->
+   (forall i, In i index_seed <-> i < n /\ (0 <= nthz seeds i)%Z) /\
+   index_remain = filter (fun i => (nthz seeds i <? 0)%Z) (seq 0 n)).
+Proof.
+  intros n. unfold instantiate_vars. fold n. destruct (clustering_mode ct seeds).
+  - split; [symmetry; apply map_nthz_seq|]. split; [apply seq_NoDup|]. split; [apply seq_NoDup|].
+    split; [intros i Hi; apply in_seq in Hi; lia|]. split; [intros i Hi; apply in_seq in Hi; lia|]. discriminate.
+  - split; [reflexivity|]. split; [apply NoDup_filter, seq_NoDup|]. split; [apply NoDup_filter, seq_NoDup|].
+    split; [intros i Hi; apply filter_In in Hi; destruct Hi as [Hi _]; apply in_seq in Hi; lia|].
+    split; [intros i Hi; apply filter_In in Hi; destruct Hi as [Hi _]; apply in_seq in Hi; lia|].
+    intros _. split; [|reflexivity]. intros i. rewrite filter_In, in_seq, Z.leb_le. intuition lia.
+Qed.
+
+(** an invariant of the labels preserved by every sweep is preserved by the loop *)
+Lemma prop_loop_inv (P : list Z -> Prop) kv c data index n_iter :
+  (forall labels labels', P labels ->
+      vote_update kv (c_indptr c) (c_indices c) data labels index = VOk labels' -> P labels') ->
+  forall fuel t lr labels labels' t' b,
+    P labels -> prop_loop kv c data index n_iter fuel t lr labels = POk (labels', t', b) -> P labels'.
+Proof.
+  intros Hstep. induction fuel as [|f IH]; intros t lr labels labels' t' b HP H; cbn [prop_loop] in H.
+  - destruct (_ && _); [discriminate|]. inversion H; subst. exact HP.
+  - destruct (_ && _).
+    + destruct (vote_update kv (c_indptr c) (c_indices c) data labels index) as [l1|] eqn:Ev; [|discriminate].
+      apply (IH _ _ _ _ _ _ (Hstep _ _ HP Ev) H).
+    + inversion H; subst. exact HP.
+Qed.
+
+(** when the loop ends on the array_equal test after at least one sweep, the last sweep started from the
+    returned labelling and changed nothing on the updated nodes *)
+Lemma prop_loop_fixed kv c data index n_iter :
+  forall fuel t lr labels labels' t',
+    prop_loop kv c data index n_iter fuel t lr labels = POk (labels', t', true) ->
+    (t' = t /\ labels' = labels /\ lr = map (nthz labels) index) \/
+    (t < t' /\ exists l0, vote_update kv (c_indptr c) (c_indices c) data l0 index = VOk labels' /\
+                          map (nthz l0) index = map (nthz labels') index).
+Proof.
+  induction fuel as [|f IH]; intros t lr labels labels' t' H; cbn [prop_loop] in H.
+  - destruct (_ && _); [discriminate|]. inversion H; subst. left. split; [reflexivity|]. split; [reflexivity|].
+    apply list_eqb_Z_eq. assumption.
+  - destruct (_ && _).
+    + destruct (vote_update kv (c_indptr c) (c_indices c) data labels index) as [l1|] eqn:Ev; [|discriminate].
+      apply IH in H. right. destruct H as [[-> [-> Heq]]|[Hlt [l0 [Hv Hm]]]].
+      * split; [lia|]. exists labels. split; [exact Ev|exact Heq].
+      * split; [lia|]. exists l0. split; assumption.
+    + inversion H; subst. left. split; [reflexivity|]. split; [reflexivity|].
+      apply list_eqb_Z_eq. assumption.
+Qed.
+
+Definition pdata (pv : pvariant) (c : csr) (n : nat) (weighted : bool) : list Q :=
+  if weighted then c_data c
+  else repeat 1%Q (match pv_ones pv with Ones_n => n | Ones_nnz => length (c_indices c) end).
+
+(** unfolding of [propagation] used by all the theorems below *)
+Lemma propagation_unfold pv c seeds order oracle weighted n_iter fuel res :
+  propagation pv c seeds order oracle weighted n_iter fuel = POk res ->
+  let n := length seeds in
+  let '(index_seed, index_remain0, labels_seed) := instantiate_vars (pv_ctest pv) seeds in
+  let index := order_index order oracle index_remain0 in
+  pr_index res = index /\
+  pr_probs res = prop_probs (csr_rows c n) (pr_labels res) /\
+  prop_loop (pv_kernel pv) c (pdata pv c n weighted) index n_iter fuel 0 (repeat 0%Z (length index))
+            (scatter (repeat (-1)%Z n) index_seed labels_seed) = POk (pr_labels res, pr_sweeps res, pr_fixed res).
+Proof.
+  unfold propagation, pdata. intros H.
+  destruct (instantiate_vars (pv_ctest pv) seeds) as [[is ir] ls].
+  destruct (prop_loop _ _ _ _ _ _ _ _ _) as [[[l t] b]| |]; try discriminate.
+  inversion H; subst res. simpl. auto.
+Qed.
+
+(** every predicted label is -1 or one of the seed labels (non-negative outside clustering mode) *)
+Theorem propagation_labels pv c seeds order oracle weighted n_iter fuel res :
+  propagation pv c seeds order oracle weighted n_iter fuel = POk res ->
+  length (pr_labels res) = length seeds /\
+  forall x, In x (pr_labels res) ->
+    x = (-1)%Z \/ (In x seeds /\ (clustering_mode (pv_ctest pv) seeds = false -> (0 <= x)%Z)).
+Proof.
+  intros H. pose proof (propagation_unfold _ _ _ _ _ _ _ _ _ H) as U. cbv zeta in U.
+  pose proof (instantiate_vars_spec (pv_ctest pv) seeds) as S. cbv zeta in S.
+  destruct (instantiate_vars (pv_ctest pv) seeds) as [[is ir] ls].
+  destruct U as [_ [_ U]]. destruct S as [Sls [_ [_ [Sis [_ Smode]]]]].
+  set (P := fun labels : list Z => length labels = length seeds /\
+              forall x, In x labels -> x = (-1)%Z \/ (In x seeds /\ (clustering_mode (pv_ctest pv) seeds = false -> (0 <= x)%Z))).
+  assert (Hstep : forall labels labels', P labels ->
+      vote_update (pv_kernel pv) (c_indptr c) (c_indices c) (pdata pv c (length seeds) weighted) labels
+                  (order_index order oracle ir) = VOk labels' -> P labels').
+  { unfold P. intros labels labels' [HL HP] Hv.
+    destruct (vote_update_labels_from_input _ _ _ _ _ _ _ Hv) as [L [_ I]].
+    split; [lia|]. intros x Hx. apply HP. apply I. exact Hx. }
+  apply (prop_loop_inv P _ _ _ _ _ Hstep) in U; [exact U|]. unfold P.
+  split.
+  - rewrite scatter_length, repeat_length. reflexivity.
+  - intros x Hx. apply scatter_In in Hx. destruct Hx as [Hx|Hx].
+    + left. apply repeat_spec in Hx. exact Hx.
+    + right. subst ls. apply in_map_iff in Hx. destruct Hx as [i [<- Hi]]. split.
+      * unfold nthz. apply nth_In. apply Sis. exact Hi.
+      * intros Hm. destruct (Smode Hm) as [Hs _]. apply Hs in Hi. tauto.
+Qed.
+
+(** admissible update orders for the theorems about "every non-seed node": index order, or any shuffle *)
+Definition order_ok (order : node_order) (oracle : list nat) (seeds : list Z) : Prop :=
+  match order with
+  | ONone => True
+  | ORandom => Permutation (filter (fun i => (nthz seeds i <? 0)%Z) (seq 0 (length seeds))) oracle
+  | _ => False
+  end.
+
+Lemma pr_index_spec pv c seeds order oracle weighted n_iter fuel res :
+  propagation pv c seeds order oracle weighted n_iter fuel = POk res ->
+  clustering_mode (pv_ctest pv) seeds = false -> order_ok order oracle seeds ->
+  NoDup (pr_index res) /\
+  forall i, In i (pr_index res) <-> i < length seeds /\ (nthz seeds i < 0)%Z.
+Proof.
+  intros H Hm Ho. pose proof (propagation_unfold _ _ _ _ _ _ _ _ _ H) as U. cbv zeta in U.
+  pose proof (instantiate_vars_spec (pv_ctest pv) seeds) as S. cbv zeta in S.
+  destruct (instantiate_vars (pv_ctest pv) seeds) as [[is ir] ls].
+  destruct U as [U _]. destruct S as [_ [_ [Sir [_ [_ Smode]]]]]. destruct (Smode Hm) as [_ Eir].
+  assert (Hspec : forall i, In i ir <-> i < length seeds /\ (nthz seeds i < 0)%Z).
+  { intros i. rewrite Eir, filter_In, in_seq, Z.ltb_lt. intuition lia. }
+  rewrite U. destruct order; simpl in *; try contradiction.
+  - rewrite <- Eir in Ho. split; [eapply Permutation_NoDup; eassumption|].
+    intros i. rewrite <- Hspec. split; intros Hi; [apply Permutation_sym in Ho|]; eapply Permutation_in; eassumption.
+  - split; assumption.
+Qed.
+
+(** seeds keep their labels (outside clustering mode, for the index and random orders) *)
+Theorem propagation_seeds_fixed_model pv c seeds order oracle weighted n_iter fuel res :
+  propagation pv c seeds order oracle weighted n_iter fuel = POk res ->
+  clustering_mode (pv_ctest pv) seeds = false -> order_ok order oracle seeds ->
+  forall i, i < length seeds -> (0 <= nthz seeds i)%Z -> nthz (pr_labels res) i = nthz seeds i.
+Proof.
+  intros H Hm Ho i Hi Hs.
+  destruct (pr_index_spec _ _ _ _ _ _ _ _ _ H Hm Ho) as [_ Hidx].
+  pose proof (propagation_unfold _ _ _ _ _ _ _ _ _ H) as U. cbv zeta in U.
+  pose proof (instantiate_vars_spec (pv_ctest pv) seeds) as S. cbv zeta in S.
+  destruct (instantiate_vars (pv_ctest pv) seeds) as [[is ir] ls].
+  destruct U as [Ui [_ U]]. destruct S as [Sls [Sis [_ [Slt [_ Smode]]]]]. destruct (Smode Hm) as [Sin _].
+  set (l0 := scatter (repeat (-1)%Z (length seeds)) is ls) in *.
+  assert (H0 : nthz l0 i = nthz seeds i).
+  { unfold l0. subst ls. apply scatter_map; auto.
+    - intros j Hj. rewrite repeat_length. apply Slt. exact Hj.
+    - apply Sin. split; assumption. }
+  rewrite <- H0. rewrite <- Ui in U.
+  assert (Hstep : forall labels labels', nthz labels i = nthz l0 i ->
+      vote_update (pv_kernel pv) (c_indptr c) (c_indices c) (pdata pv c (length seeds) weighted) labels
+                  (pr_index res) = VOk labels' -> nthz labels' i = nthz l0 i).
+  { intros labels labels' HP Hv.
+    destruct (vote_update_labels_from_input _ _ _ _ _ _ _ Hv) as [_ [F _]].
+    rewrite F; [exact HP|]. intros Hin. apply Hidx in Hin. lia. }
+  apply (prop_loop_inv (fun labels => nthz labels i = nthz l0 i) _ _ _ _ _ Hstep) in U; [exact U|reflexivity].
+Qed.
+
+(** the fixed-point theorem, unweighted path, for EVERY kernel variant: when the loop stopped because a sweep
+    changed nothing, every updated node with a labelled neighbour holds a label with a maximal number of
+    votes among its neighbours *)
+Theorem propagation_fixed_point_unweighted_model pv c seeds order oracle n_iter fuel res :
+  propagation pv c seeds order oracle false n_iter fuel = POk res ->
+  pr_fixed res = true -> 0 < pr_sweeps res -> NoDup (pr_index res) ->
+  forall i, In i (pr_index res) ->
+    has_labelled_neighbour (nbrs_unit (c_indptr c) (c_indices c) i) (pr_labels res) ->
+    local_max (nbrs_unit (c_indptr c) (c_indices c) i) (pr_labels res) i.
+Proof.
+  intros H Hf Ht Hnd i Hi Hnb. pose proof (propagation_unfold _ _ _ _ _ _ _ _ _ H) as U. cbv zeta in U.
+  destruct (instantiate_vars (pv_ctest pv) seeds) as [[is ir] ls]. destruct U as [Ui [_ U]].
+  rewrite <- Ui in U. rewrite Hf in U. apply prop_loop_fixed in U.
+  destruct U as [[E _]|[_ [l0 [Hv Hm]]]]; [lia|]. unfold pdata in Hv.
+  assert (Hsame : forall j, In j (pr_index res) -> nthz (pr_labels res) j = nthz l0 j).
+  { intros j Hj. apply In_nth with (d := 0) in Hj. destruct Hj as [k [Hk <-]].
+    apply (f_equal (fun l => nth k l 0%Z)) in Hm.
+    rewrite !(nth_map_lt _ _ _ 0 0%Z) in Hm by exact Hk. symmetry. exact Hm. }
+  destruct (vote_fixed_point_unweighted _ _ _ _ _ _ _ Hv Hnd Hsame) as [_ Hmax].
+  apply Hmax; assumption.
+Qed.
+
+(** the same for weighted votes, for a kernel that reads the weight of the edge and clears votes_neigh *)
+Theorem propagation_fixed_point_weighted_model pv c seeds order oracle n_iter fuel res :
+  pv_kernel pv = {| wpos := true; clr := true |} ->
+  Forall (fun w => 0 <= w)%Q (c_data c) ->
+  propagation pv c seeds order oracle true n_iter fuel = POk res ->
+  pr_fixed res = true -> 0 < pr_sweeps res -> NoDup (pr_index res) ->
+  forall i, In i (pr_index res) ->
+    has_labelled_neighbour (nbrs_weighted (c_indptr c) (c_indices c) (c_data c) i) (pr_labels res) ->
+    local_max (nbrs_weighted (c_indptr c) (c_indices c) (c_data c) i) (pr_labels res) i.
+Proof.
+  intros Hk Hnn H Hf Ht Hnd i Hi Hnb. pose proof (propagation_unfold _ _ _ _ _ _ _ _ _ H) as U. cbv zeta in U.
+  destruct (instantiate_vars (pv_ctest pv) seeds) as [[is ir] ls]. destruct U as [Ui [_ U]].
+  rewrite <- Ui in U. rewrite Hf in U. apply prop_loop_fixed in U.
+  destruct U as [[E _]|[_ [l0 [Hv Hm]]]]; [lia|]. unfold pdata in Hv. rewrite Hk in Hv.
+  assert (Hsame : forall j, In j (pr_index res) -> nthz (pr_labels res) j = nthz l0 j).
+  { intros j Hj. apply In_nth with (d := 0) in Hj. destruct Hj as [k [Hk' <-]].
+    apply (f_equal (fun l => nth k l 0%Z)) in Hm.
+    rewrite !(nth_map_lt _ _ _ 0 0%Z) in Hm by exact Hk'. symmetry. exact Hm. }
+  destruct (vote_fixed_point_weighted_repaired _ _ _ _ _ _ Hnn Hv Hnd Hsame) as [_ Hmax].
+  apply Hmax; assumption.
+Qed.
+
+(** ** Refutations for the current source (kernel reads data[node], never clears votes_neigh; clustering test
+    len(set(labels)) == n; ones of length n) *)
+Definition pv_current : pvariant :=
+  {| pv_kernel := {| wpos := false; clr := false |}; pv_ctest := CT_distinct; pv_ones := Ones_n |}.
+
+(** D5: weighted propagation stops at a labelling where node 3 holds label 0 although label 1 has weight 2 > 1 *)
+Definition wit_csr : csr := {| c_indptr := wit_indptr; c_indices := wit_indices; c_data := wit_data |}.
+Theorem propagation_weighted_refuted :
+  exists res, propagation pv_current wit_csr [-1; 0; 1; -1]%Z ONone [] true None 10 = POk res /\
+    pr_fixed res = true /\ 0 < pr_sweeps res /\ clustering_mode CT_distinct [-1; 0; 1; -1]%Z = false /\
+    Forall (fun w => 0 < w)%Q (c_data wit_csr) /\
+    In 3 (pr_index res) /\
+    has_labelled_neighbour (nbrs_weighted wit_indptr wit_indices wit_data 3) (pr_labels res) /\
+    ~ local_max (nbrs_weighted wit_indptr wit_indices wit_data 3) (pr_labels res) 3.
+Proof.
+  eexists. split; [vm_compute; reflexivity|]. cbn [pr_fixed pr_sweeps pr_index pr_labels].
+  split; [reflexivity|]. split; [lia|]. split; [reflexivity|]. split; [repeat constructor|].
+  split; [simpl; auto|].
+  destruct vote_weighted_refuted_current as [_ [_ [_ [_ [Hn Hl]]]]]. split; assumption.
+Qed.
+
+(** D21: [[0,4,0],[4,0,0],[0,0,0]], seeds {0:0, 1:1}: three distinct values in a vector of length 3 are taken
+    for clustering mode and seed 0 loses its label *)
+Theorem propagation_seeds_fixed_refuted :
+  let c := {| c_indptr := [0; 1; 2; 2]; c_indices := [1; 0]; c_data := [4; 4]%Q |} in
+  let seeds := [0; 1; -1]%Z in
+  exists res, propagation pv_current c seeds ONone [] true None 10 = POk res /\
+    pr_labels res = [1; 1; -1]%Z /\ nthz seeds 0 = 0%Z /\ nthz (pr_labels res) 0 <> nthz seeds 0 /\
+    clustering_mode CT_distinct seeds = true.
+Proof.
+  cbv zeta. eexists. split; [vm_compute; reflexivity|]. cbn [pr_labels].
+  split; [reflexivity|]. split; [reflexivity|]. split; [discriminate|reflexivity].
+Qed.
+
+(** node_order='increasing' / 'decreasing': [index_remain = index[index_remain]] selects the entries of the
+    argsort at the POSITIONS of the free nodes, not the free nodes in sorted order. Graph 0-1, 0-2, 1-2, 1-3,
+    seeds {1:0, 3:1}, in-weights [2,3,2,1], argsort [3,0,2,1]: nodes 3 and 2 are updated, seed 3 loses its
+    label and node 0 is never updated. *)
+Theorem propagation_order_refuted :
+  let c := {| c_indptr := [0; 2; 5; 7; 8]; c_indices := [1; 2; 0; 2; 3; 0; 1; 1];
+              c_data := [1; 1; 1; 1; 1; 1; 1; 1]%Q |} in
+  let seeds := [-1; 0; -1; 1]%Z in
+  let inw := [2; 3; 2; 1]%Z in
+  let oracle := [3; 0; 2; 1] in
+  Permutation oracle (seq 0 4) /\ Sorted Z.le (map (nthz inw) oracle) /\
+  clustering_mode CT_distinct seeds = false /\
+  exists res, propagation pv_current c seeds OIncreasing oracle true (Some 5) 5 = POk res /\
+    pr_index res = [3; 2] /\ pr_labels res = [-1; 0; 0; 0]%Z /\
+    nthz seeds 3 = 1%Z /\ nthz (pr_labels res) 3 <> nthz seeds 3.
+Proof.
+  cbv zeta. split.
+  { apply (perm_trans (l' := [0; 3; 2; 1])).
+    - apply perm_swap.
+    - apply perm_skip. apply (perm_trans (l' := [2; 3; 1])); [apply perm_swap|].
+      apply (perm_trans (l' := [2; 1; 3])); [apply perm_skip, perm_swap|]. apply perm_swap. }
+  split.
+  { cbv [map nthz nth]. repeat (first [apply Sorted_nil | apply HdRel_nil | apply Sorted_cons | apply HdRel_cons]); lia. }
+  split; [reflexivity|].
+  eexists. split; [vm_compute; reflexivity|]. cbn [pr_index pr_labels].
+  split; [reflexivity|]. split; [reflexivity|]. split; [reflexivity|discriminate].
+Qed.
+
+(** * DiffusionClassifier *)
+
+Lemma index_of_nth x l : forall c, index_of x l = Some c -> nth c l (-1)%Z = x /\ c < length l.
+Proof.
+  induction l as [|y t IH]; intros c H; simpl in H; [discriminate|].
+  destruct (x =? y)%Z eqn:E.
+  - inversion H; subst. apply Z.eqb_eq in E. simpl. split; [auto|lia].
+  - destruct (index_of x t) as [c'|]; [|discriminate]. simpl in H. inversion H; subst.
+    destruct (IH c' eq_refl) as [H1 H2]. simpl. split; [exact H1|lia].
+Qed.
+
+Lemma index_of_In x l : In x l -> exists c, index_of x l = Some c.
+Proof.
+  induction l as [|y t IH]; intros H; simpl in *; [contradiction|].
+  destruct (x =? y)%Z eqn:E; [eexists; reflexivity|].
+  destruct H as [->|H]; [rewrite Z.eqb_refl in E; discriminate|].
+  destruct (IH H) as [c Hc]. rewrite Hc. eexists; reflexivity.
+Qed.
+
+Lemma index_of_nth_nodup l : NoDup l -> forall j, j < length l -> index_of (nth j l (-1)%Z) l = Some j.
+Proof.
+  induction 1 as [|y t Hnotin Hnd IH]; intros j Hj; simpl in *; [lia|].
+  destruct j as [|j].
+  - rewrite Z.eqb_refl. reflexivity.
+  - destruct (nth j t (-1)%Z =? y)%Z eqn:E.
+    + apply Z.eqb_eq in E. exfalso. apply Hnotin. rewrite <- E. apply nth_In. lia.
+    + rewrite IH by lia. reflexivity.
+Qed.
+
+Lemma nthq_onehot k c j : nthq (onehot k c) j = if (j <? k) && (j =? c) then 1%Q else 0%Q.
+Proof.
+  unfold onehot, nthq. destruct (Nat.ltb_spec j k) as [H|H].
+  - rewrite nth_map_seq0 by exact H. reflexivity.
+  - rewrite nth_overflow by (rewrite map_length, seq_length; exact H). reflexivity.
+Qed.
+
+Lemma nthq_repeat_q (q : Q) k j : nthq (repeat q k) j = if j <? k then q else 0%Q.
+Proof.
+  unfold nthq. destruct (Nat.ltb_spec j k) as [H|H].
+  - assert (Hin : In (nth j (repeat q k) 0%Q) (repeat q k)) by (apply nth_In; rewrite repeat_length; exact H).
+    apply repeat_spec in Hin. exact Hin.
+  - apply nth_overflow. rewrite repeat_length. exact H.
+Qed.
+
+(** argmax *)
+Lemma argmax_from_le r : forall pos bp best, (forall x, In x r -> (x <= best)%Q) -> argmax_from r pos bp best = bp.
+Proof.
+  induction r as [|x t IH]; intros pos bp best H; simpl; [reflexivity|].
+  assert (E : Qle_bool x best = true) by (apply Qle_bool_iff; apply H; left; reflexivity).
+  rewrite E. apply IH. intros y Hy. apply H. right. exact Hy.
+Qed.
+
+Lemma argmax_from_peak pre m post : forall pos bp best,
+  (best < m)%Q -> (forall x, In x pre -> (x < m)%Q) -> (forall x, In x post -> (x <= m)%Q) ->
+  argmax_from (pre ++ m :: post) pos bp best = pos + length pre.
+Proof.
+  induction pre as [|x t IH]; intros pos bp best Hb Hpre Hpost; simpl.
+  - assert (E : Qle_bool m best = false).
+    { destruct (Qle_bool m best) eqn:E; [|reflexivity]. apply Qle_bool_iff in E. lra. }
+    rewrite E. rewrite argmax_from_le by exact Hpost. lia.
+  - assert (Hpre' : forall y, In y t -> (y < m)%Q) by (intros y Hy; apply Hpre; right; exact Hy).
+    assert (Hx : (x < m)%Q) by (apply Hpre; left; reflexivity).
+    destruct (Qle_bool x best).
+    + rewrite IH; auto. lia.
+    + rewrite IH; auto. lia.
+Qed.
+
+Lemma argmax_first_unique (r : list Q) (c : nat) :
+  c < length r -> (forall j, j < length r -> j <> c -> (nthq r j < nthq r c)%Q) -> argmax_first r = c.
+Proof.
+  intros Hc H. destruct (nth_split r 0%Q Hc) as [pre [post [Hr Hlen]]].
+  fold (nthq r c) in Hr. set (m := nthq r c) in *.
+  assert (Hlenr : length r = c + S (length post)).
+  { rewrite Hr. rewrite app_length. simpl. lia. }
+  assert (Hpre : forall x, In x pre -> (x < m)%Q).
+  { intros x Hx. apply (In_nth _ _ 0%Q) in Hx. destruct Hx as [j [Hj <-]].
+    assert (E : nth j pre 0%Q = nthq r j). { unfold nthq. rewrite Hr. rewrite app_nth1 by exact Hj. reflexivity. }
+    rewrite E. apply H; lia. }
+  assert (Hpost : forall x, In x post -> (x <= m)%Q).
+  { intros x Hx. apply (In_nth _ _ 0%Q) in Hx. destruct Hx as [j [Hj <-]].
+    assert (E : nth j post 0%Q = nthq r (c + S j)).
+    { unfold nthq. rewrite Hr. rewrite app_nth2 by lia. rewrite Hlen.
+      replace (c + S j - c) with (S j) by lia. reflexivity. }
+    rewrite E. apply Qlt_le_weak. apply H; lia. }
+  rewrite Hr. destruct pre as [|x t]; simpl in *.
+  - rewrite argmax_from_le by exact Hpost. try lia.
+  - rewrite argmax_from_peak; auto; try lia.
+Qed.
+
+(** convex combinations stay in [0, 1] *)
+Definition good_row (r : list (nat * Q)) : Prop :=
+  Forall (fun p : nat * Q => 0 <= snd p)%Q r /\ (sumq (map snd r) <= 1)%Q.
+
+Lemma convex01 (r : list (nat * Q)) (x : nat * Q -> Q) :
+  Forall (fun p : nat * Q => 0 <= snd p)%Q r -> (forall p, In p r -> 0 <= x p <= 1)%Q ->
+  (0 <= sumq (map (fun p => snd p * x p) r) <= sumq (map snd r))%Q.
+Proof.
+  induction r as [|p t IH]; intros Hw Hx; simpl; [lra|].
+  inversion Hw; subst. specialize (IH H2 (fun q Hq => Hx q (or_intror Hq))).
+  specialize (Hx p (or_introl eq_refl)). nra.
+Qed.
+
+Lemma norm_adj_row_good (r : list (nat * Q)) :
+  Forall (fun p : nat * Q => 0 <= snd p)%Q r -> good_row (norm_adj_row r).
+Proof.
+  intros H. unfold norm_adj_row.
+  assert (Habs : (sumq (map (fun p : nat * Q => Qabs (snd p)) r) == sumq (map snd r))%Q).
+  { clear -H. induction r as [|p t IH]; simpl; [reflexivity|]. inversion H; subst.
+    rewrite (Qabs_pos (snd p)) by assumption. rewrite IH by assumption. reflexivity. }
+  set (s := sumq (map (fun p : nat * Q => Qabs (snd p)) r)) in *.
+  assert (Hs : (0 <= s)%Q).
+  { rewrite Habs. apply sumq_nonneg. rewrite Forall_forall in *. intros x Hx. apply in_map_iff in Hx.
+    destruct Hx as [p [<- Hp]]. apply H. exact Hp. }
+  destruct (Qeq_bool s 0) eqn:E.
+  - apply Qeq_bool_iff in E. split; [exact H|]. rewrite <- Habs, E. lra.
+  - assert (Hne : ~ (s == 0)%Q) by (intros Heq; apply Qeq_bool_iff in Heq; congruence).
+    split.
+    + rewrite Forall_forall in *. intros p Hp. apply in_map_iff in Hp. destruct Hp as [q [<- Hq]]. cbn [snd fst].
+      rewrite Qred_correct. specialize (H q Hq). apply Qle_shift_div_l; lra.
+    + rewrite map_map. cbn [snd fst].
+      assert (G : (sumq (map (fun q : nat * Q => Qred (snd q / s)) r) == sumq (map snd r) / s)%Q).
+      { clearbody s. clear -Hne. induction r as [|p t IH]; [simpl; unfold Qdiv; lra|].
+        rewrite !map_cons, !sumq_cons, Qred_correct, IH. field. exact Hne. }
+      rewrite G, <- Habs. apply Qle_shift_div_r; lra.
+Qed.
+
+Definition in01m (T : mat) : Prop := forall i c, (0 <= nthq (mrow T i) c <= 1)%Q.
+
+Lemma mrow_map_seq (f : nat -> list Q) n i : mrow (map f (seq 0 n)) i = if i <? n then f i else [].
+Proof.
+  unfold mrow. destruct (Nat.ltb_spec i n) as [H|H].
+  - apply nth_map_seq0. exact H.
+  - apply nth_overflow. rewrite map_length, seq_length. exact H.
+Qed.
+
+Lemma nthq_dot_row k r T c :
+  nthq (dot_row k r T) c = if c <? k then sumqr (map (fun p : nat * Q => (snd p * nthq (mrow T (fst p)) c)%Q) r) else 0%Q.
+Proof.
+  unfold dot_row, nthq. destruct (Nat.ltb_spec c k) as [H|H].
+  - rewrite nth_map_seq0 by exact H. reflexivity.
+  - apply nth_overflow. rewrite map_length, seq_length. exact H.
+Qed.
+
+Lemma dot_row_in01 k r T c : good_row r -> in01m T -> (0 <= nthq (dot_row k r T) c <= 1)%Q.
+Proof.
+  intros [Hw Hs] HT. rewrite nthq_dot_row. destruct (c <? k); [|lra].
+  rewrite sumqr_sumq. pose proof (convex01 r (fun p => nthq (mrow T (fst p)) c) Hw (fun p _ => HT (fst p) c)) as Hc.
+  cbv beta in Hc. lra.
+Qed.
+
+Lemma dc_init_row k lu labels i : i < length labels ->
+  mrow (dc_init k lu labels) i =
+  if (0 <=? nthz labels i)%Z then match index_of (nthz labels i) lu with Some c => onehot k c | None => repeat 0%Q k end
+  else repeat (1 # 2)%Q k.
+Proof. intros H. unfold mrow, dc_init. rewrite (nth_map_lt _ labels i 0%Z []) by exact H. reflexivity. Qed.
+
+Lemma dc_init_in01 k lu labels : in01m (dc_init k lu labels).
+Proof.
+  intros i c. destruct (Nat.lt_ge_cases i (length labels)) as [H|H].
+  - rewrite dc_init_row by exact H. destruct (0 <=? nthz labels i)%Z.
+    + destruct (index_of (nthz labels i) lu).
+      * rewrite nthq_onehot. destruct ((c <? k) && (c =? n)); lra.
+      * rewrite nthq_repeat_q. destruct (c <? k); lra.
+    + rewrite nthq_repeat_q. destruct (c <? k); lra.
+  - unfold mrow. rewrite nth_overflow by (unfold dc_init; rewrite map_length; exact H).
+    unfold nthq. destruct c; simpl; lra.
+Qed.
+
+Lemma dc_init_row_length k lu labels i : i < length labels -> length (mrow (dc_init k lu labels) i) = k.
+Proof.
+  intros H. rewrite dc_init_row by exact H. destruct (0 <=? nthz labels i)%Z.
+  - destruct (index_of (nthz labels i) lu); [unfold onehot; rewrite map_length, seq_length|rewrite repeat_length]; reflexivity.
+  - apply repeat_length.
+Qed.
+
+Record TInv (k : nat) (labels : list Z) (T0 T : mat) : Prop :=
+  { ti_len : length T = length labels;
+    ti_01 : in01m T;
+    ti_row : forall i, i < length labels -> length (mrow T i) = k;
+    ti_seed : forall i, i < length labels -> (0 <= nthz labels i)%Z -> mrow T i = mrow T0 i }.
+
+Lemma dc_iter_inv (adj : adjrows) (labels : list Z) (n_iter : nat) :
+  (forall r, In r adj -> Forall (fun p : nat * Q => 0 <= snd p)%Q r) ->
+  let lu := uniq_labels labels in
+  let k := length lu in
+  let T0 := dc_init k lu labels in
+  TInv k labels T0 (Nat.iter n_iter (dc_step k (map norm_adj_row adj) labels T0) T0).
+Proof.
+  intros Hadj lu k T0.
+  assert (Hgood : forall i, good_row (nth i (map norm_adj_row adj) [])).
+  { intros i. destruct (Nat.lt_ge_cases i (length adj)) as [H|H].
+    - rewrite (nth_map_lt norm_adj_row adj i [] []) by exact H. apply norm_adj_row_good. apply Hadj. apply nth_In. exact H.
+    - rewrite nth_overflow by (rewrite map_length; exact H). split; [constructor|simpl; lra]. }
+  induction n_iter as [|m IH].
+  - simpl. constructor.
+    + unfold T0, dc_init. apply map_length.
+    + apply dc_init_in01.
+    + intros i Hi. apply dc_init_row_length. exact Hi.
+    + reflexivity.
+  - simpl. set (T := Nat.iter m (dc_step k (map norm_adj_row adj) labels T0) T0) in *.
+    destruct IH as [I1 I2 I3 I4].
+    assert (Hrow : forall i, mrow (dc_step k (map norm_adj_row adj) labels T0 T) i =
+                   if i <? length labels then
+                     (if (0 <=? nthz labels i)%Z then mrow T0 i else dot_row k (nth i (map norm_adj_row adj) []) T)
+                   else []).
+    { intros i. unfold dc_step. apply mrow_map_seq. }
+    constructor.
+    + unfold dc_step. rewrite map_length, seq_length. reflexivity.
+    + intros i c. rewrite Hrow. destruct (i <? length labels); [|destruct c; unfold nthq; simpl; lra].
+      destruct (0 <=? nthz labels i)%Z; [apply dc_init_in01|]. apply dot_row_in01; auto.
+    + intros i Hi. rewrite Hrow. apply Nat.ltb_lt in Hi. rewrite Hi. apply Nat.ltb_lt in Hi.
+      destruct (0 <=? nthz labels i)%Z; [apply dc_init_row_length; exact Hi|].
+      unfold dot_row. rewrite map_length, seq_length. reflexivity.
+    + intros i Hi Hs. rewrite Hrow. apply Nat.ltb_lt in Hi. rewrite Hi. apply Z.leb_le in Hs. rewrite Hs. reflexivity.
+Qed.
+
+Lemma sumq_ge_member (l : list Q) y : (forall x, In x l -> (0 <= x)%Q) -> In y l -> (y <= sumq l)%Q.
+Proof.
+  induction l as [|a t IH]; intros H Hy; simpl in *; [contradiction|].
+  assert (Ht : (0 <= sumq t)%Q) by (apply sumq_nonneg; rewrite Forall_forall; intros x Hx; apply H; auto).
+  destruct Hy as [->|Hy]; [lra|]. specialize (IH (fun x Hx => H x (or_intror Hx)) Hy).
+  specialize (H a (or_introl eq_refl)). lra.
+Qed.
+
+Lemma sumq_le_length (l : list Q) : (forall x, In x l -> (x <= 1)%Q) -> (sumq l <= qnat (length l))%Q.
+Proof.
+  induction l as [|a t IH]; intros H; [apply Qle_refl|].
+  rewrite sumq_cons. change (length (a :: t)) with (1 + length t). rewrite qnat_plus.
+  specialize (IH (fun x Hx => H x (or_intror Hx))). specialize (H a (or_introl eq_refl)).
+  change (qnat 1) with 1%Q. lra.
+Qed.
+
+Lemma in_mat_row (T : mat) r : In r T -> exists i, i < length T /\ mrow T i = r.
+Proof. intros H. apply (In_nth _ _ []) in H. destruct H as [i [Hi E]]. exists i. split; assumption. Qed.
+
+Lemma col_mean_bounds (T : mat) (c : nat) :
+  in01m T -> T <> [] ->
+  (0 <= col_mean (length T) T c <= 1)%Q /\
+  (forall u, u < length T -> (nthq (mrow T u) c == 1)%Q -> (0 < col_mean (length T) T c)%Q).
+Proof.
+  intros H01 Hne. unfold col_mean. rewrite sumqr_sumq.
+  set (col := map (fun r => nthq r c) T).
+  assert (Hn : (0 < qnat (length T))%Q) by (apply qnat_pos; destruct T; [congruence|simpl; lia]).
+  assert (Hcol : forall x, In x col -> (0 <= x <= 1)%Q).
+  { intros x Hx. unfold col in Hx. apply in_map_iff in Hx. destruct Hx as [r [<- Hr]].
+    destruct (in_mat_row _ _ Hr) as [i [_ <-]]. apply H01. }
+  assert (H0 : (0 <= sumq col)%Q) by (apply sumq_nonneg; rewrite Forall_forall; intros x Hx; apply Hcol; exact Hx).
+  assert (H1 : (sumq col <= qnat (length T))%Q).
+  { replace (length T) with (length col) by (unfold col; apply map_length).
+    apply sumq_le_length. intros x Hx. apply Hcol. exact Hx. }
+  fold (qnat (length T)). split.
+  - split; [apply Qle_shift_div_l; lra|apply Qle_shift_div_r; lra].
+  - intros u Hu H1u. apply Qlt_shift_div_l; [exact Hn|].
+    assert (Hin : In (nthq (mrow T u) c) col).
+    { unfold col. apply in_map_iff. exists (mrow T u). split; [reflexivity|]. apply nth_In. exact Hu. }
+    pose proof (sumq_ge_member col _ (fun x Hx => proj1 (Hcol x Hx)) Hin). fold col. rewrite sumqr_sumq. lra.
+Qed.
+
+(** decidability of k-step reachability (finite graph), and existence of a first hit *)
+Lemma reachk_dec (g : graph) (src : list bool) : forall k v, {reachk g src k v} + {~ reachk g src k v}.
+Proof.
+  induction k as [|k IH]; intros v; simpl.
+  - destruct (nthb src v); [left; reflexivity|right; discriminate].
+  - destruct (Exists_dec (fun u => reachk g src k u /\ In v (row g u)) (seq 0 (length g))) as [E|E].
+    + intros u. destruct (IH u) as [A|A]; [|right; tauto].
+      destruct (in_dec Nat.eq_dec v (row g u)) as [B|B]; [left; tauto|right; tauto].
+    + left. apply Exists_exists in E. destruct E as [u [_ Hu]]. exists u. exact Hu.
+    + right. intros [u [Hr Hin]]. apply E. apply Exists_exists. exists u. split; [|tauto].
+      apply in_seq. pose proof (row_nonempty_lt g u v Hin). lia.
+Qed.
+
+Lemma reach_first_hop (g : graph) (src : list bool) (v : nat) : forall k, reachk g src k v -> exists k', hop g src v k'.
+Proof.
+  induction k as [k IH] using lt_wf_ind. intros Hr.
+  destruct (Exists_dec (fun j => reachk g src j v) (seq 0 k)) as [E|E].
+  - intros j. apply reachk_dec.
+  - apply Exists_exists in E. destruct E as [j [Hj Hrj]]. apply in_seq in Hj. apply (IH j); [lia|exact Hrj].
+  - exists k. split; [exact Hr|]. intros j Hj Hrj. apply E. apply Exists_exists. exists j. split; [apply in_seq; lia|exact Hrj].
+Qed.
+
+Lemma bfs_neg_iff (g : graph) (src : list bool) dist v :
+  length src = length g -> bfs g src = Some dist -> v < length g ->
+  ((nthz dist v <? 0)%Z = true <-> forall k, ~ reachk g src k v).
+Proof.
+  intros Hl Hb Hv. destruct (bfs_exact g src Hl) as [d [Hd [_ Hspec]]]. rewrite Hb in Hd. inversion Hd; subst d.
+  destruct (Hspec v Hv) as [Hk Hm]. rewrite Z.ltb_lt. split.
+  - intros Hneg k Hr. destruct (reach_first_hop g src v k Hr) as [k' Hh]. apply Hk in Hh. lia.
+  - intros Hno. apply Hm in Hno. lia.
+Qed.
+
+(** unfolding of dc_fit *)
+Lemma dc_fit_unfold adj labels n_iter centering scale expf lab probs :
+  dc_fit adj labels n_iter centering scale expf = Some (lab, probs) ->
+  let lu := uniq_labels labels in
+  let k := length lu in
+  let T0 := dc_init k lu labels in
+  let T := Nat.iter n_iter (dc_step k (map norm_adj_row adj) labels T0) T0 in
+  let Tc := if centering then center k T else T in
+  let Te := if centering then map (map (fun x => expf (scale * x)%Q)) Tc else Tc in
+  k <> 0 /\
+  exists dist, bfs (map (map fst) adj) (map (fun l => (0 <=? l)%Z) labels) = Some dist /\
+    lab = map2 (fun (d l : Z) => if (d <? 0)%Z then (-1)%Z else l) dist
+               (map (fun r => nth (argmax_first r) lu (-1)%Z) Tc) /\
+    probs = map normalize_row (map2 (fun (d : Z) (r : list Q) => if (d <? 0)%Z then repeat 0%Q k else r) dist Te).
+Proof.
+  unfold dc_fit. intros H. cbv zeta.
+  destruct (length (uniq_labels labels) =? 0) eqn:Ek; [discriminate|]. apply Nat.eqb_neq in Ek.
+  split; [exact Ek|].
+  destruct (bfs (map (map fst) adj) (map (fun l => (0 <=? l)%Z) labels)) as [dist|]; [|discriminate].
+  exists dist. inversion H; subst. auto.
+Qed.
+
+Lemma center_row k T i : i < length T ->
+  mrow (center k T) i = map (fun c => Qred (nthq (mrow T i) c - col_mean (length T) T c)%Q) (seq 0 k).
+Proof. intros H. unfold center, mrow. rewrite (nth_map_lt _ T i [] []) by exact H. reflexivity. Qed.
+
+(** the label assigned to node v before the "unreached" reset *)
+Lemma dc_label_seed (adj : adjrows) (labels : list Z) (n_iter : nat) (centering : bool) (v : nat) :
+  (forall r, In r adj -> Forall (fun p : nat * Q => 0 <= snd p)%Q r) ->
+  v < length labels -> (0 <= nthz labels v)%Z ->
+  let lu := uniq_labels labels in
+  let k := length lu in
+  let T0 := dc_init k lu labels in
+  let T := Nat.iter n_iter (dc_step k (map norm_adj_row adj) labels T0) T0 in
+  let Tc := if centering then center k T else T in
+  nth (argmax_first (mrow Tc v)) lu (-1)%Z = nthz labels v.
+Proof.
+  intros Hadj Hv Hs lu k T0 T Tc.
+  pose proof (dc_iter_inv adj labels n_iter Hadj) as Inv. cbv zeta in Inv. fold lu k T0 T in Inv.
+  destruct Inv as [I1 I2 I3 I4].
+  assert (Hin : In (nthz labels v) lu).
+  { apply uniq_labels_In. split; [unfold nthz; apply nth_In; exact Hv|exact Hs]. }
+  destruct (index_of_In _ _ Hin) as [c Hc]. destruct (index_of_nth _ _ _ Hc) as [Hnth Hck]. fold k in Hck.
+  assert (Hrow : mrow T v = onehot k c).
+  { rewrite I4 by assumption. unfold T0. rewrite dc_init_row by exact Hv.
+    apply Z.leb_le in Hs. rewrite Hs, Hc. reflexivity. }
+  assert (Harg : argmax_first (mrow Tc v) = c).
+  { unfold Tc. destruct centering.
+    - rewrite center_row by lia. apply argmax_first_unique.
+      + rewrite map_length, seq_length. exact Hck.
+      + rewrite map_length, seq_length. intros j Hj Hjc.
+        rewrite !nthq_map_seq0 by assumption. rewrite !Qred_correct, Hrow, !nthq_onehot.
+        apply Nat.ltb_lt in Hj. apply Nat.ltb_lt in Hck. rewrite Hj, Hck. apply Nat.ltb_lt in Hj. apply Nat.ltb_lt in Hck.
+        rewrite Nat.eqb_refl. apply Nat.eqb_neq in Hjc. rewrite Hjc. simpl andb. cbv iota.
+        assert (HTne : T <> []) by (intros E; rewrite E in I1; simpl in I1; lia).
+        destruct (col_mean_bounds T c I2 HTne) as [[_ Hc1] _].
+        destruct (col_mean_bounds T j I2 HTne) as [_ Hpos].
+        (* class j has a seed u whose row is onehot j *)
+        assert (Hlj : In (nth j lu (-1)%Z) lu) by (apply nth_In; exact Hj).
+        apply uniq_labels_In in Hlj. destruct Hlj as [Hinl Hnonneg].
+        apply (In_nth _ _ 0%Z) in Hinl. destruct Hinl as [u [Hu Hlu]]. fold (nthz labels u) in Hlu.
+        assert (Hrowu : mrow T u = onehot k j).
+        { rewrite I4 by (try exact Hu; rewrite Hlu; exact Hnonneg). unfold T0. rewrite dc_init_row by exact Hu.
+          rewrite Hlu. apply Z.leb_le in Hnonneg. rewrite Hnonneg.
+          rewrite (index_of_nth_nodup lu (uniq_labels_NoDup labels) j Hj). reflexivity. }
+        assert (Hone : (nthq (mrow T u) j == 1)%Q).
+        { rewrite Hrowu, nthq_onehot. apply Nat.ltb_lt in Hj. rewrite Hj, Nat.eqb_refl. reflexivity. }
+        specialize (Hpos u ltac:(lia) Hone). lra.
+    - rewrite Hrow. apply argmax_first_unique.
+      + unfold onehot. rewrite map_length, seq_length. exact Hck.
+      + unfold onehot at 1. rewrite map_length, seq_length. intros j Hj Hjc. rewrite !nthq_onehot.
+        apply Nat.ltb_lt in Hj. apply Nat.ltb_lt in Hck. rewrite Hj, Hck, Nat.eqb_refl.
+        apply Nat.eqb_neq in Hjc. rewrite Hjc. simpl. lra. }
+  rewrite Harg. exact Hnth.
+Qed.
+
+Lemma dc_Tc_length (adj : adjrows) (labels : list Z) (n_iter : nat) (centering : bool) :
+  (forall r, In r adj -> Forall (fun p : nat * Q => 0 <= snd p)%Q r) ->
+  let lu := uniq_labels labels in
+  let k := length lu in
+  let T0 := dc_init k lu labels in
+  let T := Nat.iter n_iter (dc_step k (map norm_adj_row adj) labels T0) T0 in
+  let Tc := if centering then center k T else T in
+  length Tc = length labels /\ forall i, i < length labels -> length (mrow Tc i) = k.
+Proof.
+  intros Hadj lu k T0 T Tc.
+  pose proof (dc_iter_inv adj labels n_iter Hadj) as Inv. cbv zeta in Inv. fold lu k T0 T in Inv.
+  destruct Inv as [I1 I2 I3 I4]. unfold Tc. destruct centering.
+  - split; [unfold center; rewrite map_length; exact I1|].
+    intros i Hi. rewrite center_row by lia. rewrite map_length, seq_length. reflexivity.
+  - split; [exact I1|exact I3].
+Qed.
+
+Lemma dc_lab_nth adj labels n_iter centering scale expf lab probs v :
+  (forall r, In r adj -> Forall (fun p : nat * Q => 0 <= snd p)%Q r) ->
+  length adj = length labels ->
+  dc_fit adj labels n_iter centering scale expf = Some (lab, probs) -> v < length labels ->
+  let lu := uniq_labels labels in
+  let k := length lu in
+  let T0 := dc_init k lu labels in
+  let T := Nat.iter n_iter (dc_step k (map norm_adj_row adj) labels T0) T0 in
+  let Tc := if centering then center k T else T in
+  exists dist, bfs (map (map fst) adj) (map (fun l => (0 <=? l)%Z) labels) = Some dist /\
+    length lab = length labels /\
+    nthz lab v = if (nthz dist v <? 0)%Z then (-1)%Z else nth (argmax_first (mrow Tc v)) lu (-1)%Z.
+Proof.
+  intros Hadj Hlen H Hv lu k T0 T Tc.
+  destruct (dc_fit_unfold _ _ _ _ _ _ _ _ H) as [Hk [dist [Hb [Hlab _]]]]. fold lu k T0 T Tc in Hlab.
+  exists dist. split; [exact Hb|].
+  destruct (dc_Tc_length adj labels n_iter centering Hadj) as [LT _]. fold lu k T0 T Tc in LT.
+  assert (Hld : length dist = length labels).
+  { destruct (bfs_exact (map (map fst) adj) (map (fun l => (0 <=? l)%Z) labels)) as [d [Hd [Hdl _]]].
+    - rewrite !map_length. symmetry. exact Hlen.
+    - rewrite Hb in Hd. inversion Hd; subst d. rewrite Hdl, map_length. exact Hlen. }
+  subst lab. split.
+  - rewrite map2_length, map_length, Hld, LT. apply Nat.min_id.
+  - unfold nthz at 1. rewrite (nth_map2 _ dist _ v 0%Z (-1)%Z 0%Z) by (try rewrite map_length; lia).
+    fold (nthz dist v). rewrite (nth_map_lt _ Tc v [] (-1)%Z) by lia. reflexivity.
+Qed.
+
+(** seeds keep their labels *)
+Theorem dc_seeds_fixed adj labels n_iter centering scale expf lab probs :
+  (forall r, In r adj -> Forall (fun p : nat * Q => 0 <= snd p)%Q r) ->
+  length adj = length labels ->
+  dc_fit adj labels n_iter centering scale expf = Some (lab, probs) ->
+  forall v, v < length labels -> (0 <= nthz labels v)%Z -> nthz lab v = nthz labels v.
+Proof.
+  intros Hadj Hlen H v Hv Hs.
+  destruct (dc_lab_nth _ _ _ _ _ _ _ _ v Hadj Hlen H Hv) as [dist [Hb [_ Hnth]]]. cbv zeta in Hnth.
+  rewrite Hnth. rewrite (dc_label_seed adj labels n_iter centering v Hadj Hv Hs).
+  destruct (nthz dist v <? 0)%Z eqn:E; [|reflexivity]. exfalso.
+  assert (Hlg : length (map (fun l => (0 <=? l)%Z) labels) = length (map (map fst) adj)) by (rewrite !map_length; lia).
+  assert (Hvg : v < length (map (map fst) adj)) by (rewrite map_length; lia).
+  pose proof (proj1 (bfs_neg_iff _ _ _ v Hlg Hb Hvg) E) as E'.
+  apply (E' 0). simpl. unfold nthb. rewrite (nth_map_lt _ labels v 0%Z false) by exact Hv.
+  apply Z.leb_le. exact Hs.
+Qed.
+
+(** label -1 exactly on the nodes no walk from a seed reaches (on an undirected graph: the nodes of the
+    components without a seed) *)
+Theorem dc_minus1_iff_unreached adj labels n_iter centering scale expf lab probs :
+  (forall r, In r adj -> Forall (fun p : nat * Q => 0 <= snd p)%Q r) ->
+  length adj = length labels ->
+  dc_fit adj labels n_iter centering scale expf = Some (lab, probs) ->
+  length lab = length labels /\
+  forall v, v < length labels ->
+    (nthz lab v = (-1)%Z <-> forall k, ~ reachk (map (map fst) adj) (map (fun l => (0 <=? l)%Z) labels) k v) /\
+    (nthz lab v <> (-1)%Z -> In (nthz lab v) labels /\ (0 <= nthz lab v)%Z).
+Proof.
+  intros Hadj Hlen H.
+  destruct (dc_fit_unfold _ _ _ _ _ _ _ _ H) as [Hk _]. cbv zeta in Hk.
+  split.
+  { destruct labels as [|l0 t]; [simpl in Hk; congruence|].
+    destruct (dc_lab_nth _ _ _ _ _ _ _ _ 0 Hadj Hlen H ltac:(simpl; lia)) as [_ [_ [L _]]]. exact L. }
+  intros v Hv.
+  destruct (dc_lab_nth _ _ _ _ _ _ _ _ v Hadj Hlen H Hv) as [dist [Hb [_ Hnth]]]. cbv zeta in Hnth.
+  assert (Hlg : length (map (fun l => (0 <=? l)%Z) labels) = length (map (map fst) adj)) by (rewrite !map_length; lia).
+  assert (Hvg : v < length (map (map fst) adj)) by (rewrite map_length; lia).
+  pose proof (bfs_neg_iff _ _ _ v Hlg Hb Hvg) as Hneg.
+  destruct (dc_Tc_length adj labels n_iter centering Hadj) as [_ LR]. cbv zeta in LR.
+  set (lu := uniq_labels labels) in *. set (k := length lu) in *.
+  set (Tc := if centering then _ else _) in *.
+  assert (Hlu : In (nth (argmax_first (mrow Tc v)) lu (-1)%Z) lu).
+  { apply nth_In. fold k. rewrite <- (LR v Hv). apply argmax_first_lt.
+    intros E. specialize (LR v Hv). rewrite E in LR. simpl in LR. lia. }
+  apply uniq_labels_In in Hlu. destruct Hlu as [Hin Hnn].
+  rewrite Hnth. destruct (nthz dist v <? 0)%Z eqn:E.
+  - split; [|congruence]. split; [intros _; apply Hneg; reflexivity|reflexivity].
+  - split; [|intros _; split; assumption]. split; [lia|]. intros Hno. apply Hneg in Hno. congruence.
 Qed.
